@@ -214,6 +214,10 @@ func (i *mapInjector) setElem(_ int, key, value interface{}, keyWasNull, valueWa
 			return errWrongElementType("map value", valueType, newValue.Type())
 		}
 	}
+	if keyType.Kind() == reflect.Interface && newKey.IsValid() && !newKey.IsNil() && !newKey.Elem().Type().Comparable() {
+		// e.g. a map<list<int>,int> decoded into map[interface{}]interface{}: the key would be a slice
+		return errWrongElementType("map key", keyType, newKey.Elem().Type())
+	}
 	i.dest.SetMapIndex(newKey, newValue)
 	return nil
 }
